@@ -8,6 +8,16 @@ From Coq Require Import ZArith QArith List Bool Arith.
 From C13 Require Import C14Model.
 Import ListNotations.
 
+(* The three flags select, for each of the three limitations of the pinned tree reported as findings, the pinned
+   behaviour ([false]) or the behaviour with the corresponding props/C13/fix_*.diff applied ([true]); the check
+   observes the real code on probe formulas and runs the extracted model with the matching flags.
+     v_depth_stop : fix_search_nested_group.diff          Evaluator::search stops at the delimiter only at depth 0
+     v_lpar_match : fix_logical_leading_parenthesis.diff  treatLogicalExpression strips '(' only with ITS closing ')'
+     v_or_first   : fix_logical_or_priority.diff          treatLogicalExpression splits at '||' before '&&' *)
+Record variant := { v_depth_stop : bool; v_lpar_match : bool; v_or_first : bool }.
+Definition pinned : variant := {| v_depth_stop := false; v_lpar_match := false; v_or_first := false |}.
+Definition repaired : variant := {| v_depth_stop := true; v_lpar_match := true; v_or_first := true |}.
+
 Inductive tok :=
 | KNum (q : Q) | KVar (i : nat) | KFun (f : dfn) | KUFun (f : ufn) | KBFun (f : bfn)
 | KOp (o : bop) | KL | KR | KComma | KQ | KColon | KCmp (c : cmp) | KAnd | KOr | KNot
@@ -23,17 +33,31 @@ Definition isAnd t := match t with KAnd => true | _ => false end.
 Definition isOr t := match t with KOr => true | _ => false end.
 
 (* Evaluator::search(p, pe, m, s): None = throws (unbalanced parenthesis); Some None = not found (loop ended at pe
-   or at the first token equal to s, whatever the depth); Some (Some k) = found at offset k *)
-Fixpoint search (m : tok -> bool) (s : stop) (l : list tok) (depth pos : nat) : option (option nat) :=
+   or at the first token equal to s -- whatever the depth in the pinned tree [aw = false], at depth 0 only with
+   fix_search_nested_group.diff [aw = true]); Some (Some k) = found at offset k *)
+Fixpoint search (aw : bool) (m : tok -> bool) (s : stop) (l : list tok) (depth pos : nat) : option (option nat) :=
   match l with
   | [] => Some None
   | t :: r =>
-    if is_stop s t then Some None else
+    if is_stop s t && (negb aw || Nat.eqb depth 0) then Some None else
     match t with
-    | KL => search m s r (S depth) (S pos)
-    | KR => match depth with O => None | S d => search m s r d (S pos) end
-    | _ => if m t && Nat.eqb depth 0 then Some (Some pos) else search m s r depth (S pos)
+    | KL => search aw m s r (S depth) (S pos)
+    | KR => match depth with O => None | S d => search aw m s r d (S pos) end
+    | _ => if m t && Nat.eqb depth 0 then Some (Some pos) else search aw m s r depth (S pos)
     end
+  end.
+
+(* fix_logical_leading_parenthesis.diff: offset of the ')' that closes the '(' which begins the list *)
+Fixpoint close_pos (l : list tok) (depth pos : nat) : option nat :=
+  match l with
+  | [] => None
+  | KL :: r => close_pos r (S depth) (S pos)
+  | KR :: r => match depth with
+               | O => None
+               | S O => Some pos
+               | S d => close_pos r d (S pos)
+               end
+  | _ :: r => close_pos r depth (S pos)
   end.
 
 (* Evaluator::searchComparisonOperator: the unique comparison operator at depth 0 *)
@@ -143,13 +167,17 @@ Definition reduce (l : list item) : option expr :=
   match l5 with [IE e] => Some e | _ => None end))))).
 
 (* ---- treatGroup / treatGroup2 / treatLogicalExpression, by recursion on fuel ---- *)
+Section Pipeline.
+Variable v : variant.
+Let aw := v_depth_stop v.
+
 Fixpoint tgroup (n : nat) (l : list tok) (s : stop) {struct n} : option (expr * list tok) :=
   match n with O => None | S n' =>
   match l with
   | [] => None
   | t :: _ =>
     if is_stop s t then None else
-    match search isQ s l 0 0 with
+    match search aw isQ s l 0 0 with
     | None => None
     | Some None => tgroup2 n' l s []
     | Some (Some k) =>
@@ -157,9 +185,9 @@ Fixpoint tgroup (n : nat) (l : list tok) (s : stop) {struct n} : option (expr * 
       let cnd := firstn k l in
       let after := skipn (S k) l in
       match after with [] => None | _ =>
-      match search isQ s after 0 0 with
+      match search aw isQ s after 0 0 with
       | Some None =>
-        match search isColon s after 0 0 with
+        match search aw isColon s after 0 0 with
         | Some (Some j) =>
           if Nat.eqb j 0 then None else
           let mid := firstn j after in
@@ -230,29 +258,27 @@ with tlogical (n : nat) (l : list tok) {struct n} : option lexpr :=
   match l with
   | [] => None
   | t0 :: r0 =>
-    match search isAnd SNone l 0 0, search isOr SNone l 0 0 with
+    match search aw isAnd SNone l 0 0, search aw isOr SNone l 0 0 with
     | Some pa, Some po =>
-      match (match pa with Some k => Some k | None => po end) with
+      (* pinned: split at the first && if there is one, else at the first ||; fix_logical_or_priority.diff: at the
+         first || if there is one, else at the first && *)
+      let first := fun (a b : option nat) => match a with Some k => Some k | None => b end in
+      let is_and := if v_or_first v then (match po with Some _ => false | None => true end)
+                    else (match pa with Some _ => true | None => false end) in
+      match (if v_or_first v then first po pa else first pa po) with
       | Some k =>
         if Nat.eqb k 0 then None else
         match skipn (S k) l with
         | [] => None
         | ro =>
           match tlogical n' (firstn k l), tlogical n' ro with
-          | Some a, Some b => Some (match pa with Some _ => LAnd a b | None => LOr a b end)
+          | Some a, Some b => Some (if is_and then LAnd a b else LOr a b)
           | _, _ => None
           end
         end
       | None =>
-        match t0 with
-        | KL =>
-          (* the opening parenthesis is stripped together with the LAST token, which must be ')' *)
-          match rev r0 with
-          | KR :: mid_rev => tlogical n' (rev mid_rev)
-          | _ => None
-          end
-        | KNot => option_map LNot (tlogical n' r0)
-        | _ =>
+        (* treatLogicalExpression2: the unique comparison operator at depth 0 *)
+        let comparison := fun _ : unit =>
           match search_cmp l 0 0 None with
           | Some (Some (k, c)) =>
             if Nat.eqb k 0 then None else
@@ -265,7 +291,24 @@ with tlogical (n : nat) (l : list tok) {struct n} : option lexpr :=
               end
             end
           | _ => None
+          end in
+        match t0 with
+        | KL =>
+          if v_lpar_match v then
+            (* the parenthesis is stripped only when ITS closing parenthesis is the last token; otherwise it begins
+               the left-hand side of a comparison: (x+1)*2>3 *)
+            match close_pos l 0 0 with
+            | None => None
+            | Some k => if Nat.eqb (S k) (length l) then tlogical n' (firstn (k - 1) r0) else comparison tt
+            end
+          else
+          (* pinned: the opening parenthesis is stripped together with the LAST token, which must be ')' *)
+          match rev r0 with
+          | KR :: mid_rev => tlogical n' (rev mid_rev)
+          | _ => None
           end
+        | KNot => option_map LNot (tlogical n' r0)
+        | _ => comparison tt
         end
       end
     | _, _ => None
@@ -273,8 +316,12 @@ with tlogical (n : nat) (l : list tok) {struct n} : option lexpr :=
   end end.
 
 (* Evaluator::analyse: treatGroup(tokens, "") ; reduce ; analyse *)
-Definition parse (l : list tok) : option expr :=
+Definition parse_gen (l : list tok) : option expr :=
   match tgroup (3 * length l + 8) l SNone with
   | Some (e, _) => Some e
   | None => None
   end.
+End Pipeline.
+
+(* the pipeline of the pinned tree *)
+Definition parse := parse_gen pinned.
